@@ -201,7 +201,7 @@ def run_structure(job):
         if not ok:
             res['viol'].append(('roundtrip', msg, itext))
     for msg, w in E.violations:
-        vals = {k: pp.unescape_z3(v.strip('"')) for k, v in w.items() if k.startswith('leaf')}
+        vals = {k: pp.z3_literal(v) for k, v in w.items() if k.startswith('leaf')}
         res['viol'].append(('solver', msg, w))
     res['leafwit'] = None
     return res
@@ -219,7 +219,7 @@ def witness_text(text, w):
     for i, n in enumerate(nodes):
         key = 'leaf%d' % i
         if key in w:
-            val = pp.unescape_z3(str(w[key]).strip('"'))
+            val = pp.z3_literal(w[key])
             out.append(text[pos:n.lexpos])
             out.append(val)
             pos = n.lexpos + len(n.value)
